@@ -8,7 +8,7 @@ from xvlib.frontend import AnalysisBroken
 from xvlib.absint import run_function, Inconclusive
 from xvlib.facts import walk, show
 from xvlib.normform import Rat, Poly, subst, reduce_trig
-from rules.common import sets_error, value_paths, zero_paths, noerr, register_error_functions, rename
+from rules.common import sets_error, value_paths, zero_paths, noerr, register_error_functions, rename, full_range
 
 U = 'src/crystal_diffraction.c'
 
@@ -169,6 +169,10 @@ def structure_factor(prog, chk, pi):
     acc_ok = True
     acc_msg = ''
     table = {}
+    loops_ok = all(full_range(e.node, 'n_atom') for p in done for e in p.events if e.kind == 'iter-end')
+    chk.decide(loops_ok, 'structure-factor-sum', U, f['name'], 'all-atoms', loc,
+               'both loops (per-element factors, sum over the unit cell) must visit every atom i = 0 .. n_atom-1 of the crystal',
+               why='for (i = 0; i < n_atom; i++) in both loops')
     for p in done:
         its = [e for e in p.events if e.kind == 'iter-end']
         second = its[1]
